@@ -472,6 +472,32 @@ class ComponentTimeRangeMatcher:
         return [["P=" + prop] for prop in props]
 
 
+def _unescape_text(text: str, split: bool = False) -> list[str]:
+    """Undo the escaping of a TEXT value (RFC 5545, 3.3.11).
+
+    With split, the value is a comma-separated list (e.g. CATEGORIES) and is
+    cut at the commas that are not escaped.
+    """
+    parts = []
+    cur = []
+    i = 0
+    while i < len(text):
+        ch = text[i]
+        if ch == "\\" and i + 1 < len(text):
+            nxt = text[i + 1]
+            cur.append("\n" if nxt in "nN" else nxt)
+            i += 2
+            continue
+        if ch == "," and split:
+            parts.append("".join(cur))
+            cur = []
+        else:
+            cur.append(ch)
+        i += 1
+    parts.append("".join(cur))
+    return parts
+
+
 class TextMatcher:
     def __init__(
         self,
@@ -492,10 +518,23 @@ class TextMatcher:
     def __repr__(self) -> str:
         return f"{self.__class__.__name__}({self.name!r}, {self.text!r}, collation={self.collation!r}, negate_condition={self.negate_condition!r})"
 
-    def match_indexes(self, indexes: SubIndexDict):
-        return any(
-            self.match(self.type_fn(self.type_fn.from_ical(k))) for k in indexes[None]
-        )
+    def match_indexes(self, indexes: SubIndexDict, raw: bool = False):
+        return any(self.match(self._from_index(k, raw)) for k in indexes[None])
+
+    def _from_index(self, value: bytes, raw: bool):
+        """Turn an index value back into what match() takes.
+
+        Property values are kept in the index the way to_ical() writes them,
+        i.e. with TEXT escaped; parameter values are kept as they are (raw).
+        """
+        text = value.decode("utf-8")
+        if raw:
+            return text
+        if issubclass(self.type_fn, vCategory):
+            return vCategory(_unescape_text(text, split=True))
+        if issubclass(self.type_fn, vText):
+            return vText(_unescape_text(text)[0])
+        return self.type_fn(self.type_fn.from_ical(text))
 
     def match(self, prop: Union[vText, vCategory, str]):
         if isinstance(prop, vText):
@@ -791,7 +830,7 @@ class ParameterFilter:
             return False
 
         for child in self.children:
-            if not child.match_indexes(subindexes):
+            if not child.match_indexes(subindexes, raw=True):
                 return False
         return True
 
